@@ -86,8 +86,8 @@ QZero == <<0, 1>>
 QHalf == <<1, 2>>
 Irr == <<0, 0>>                            \* "not a rational number" (never a valid rational)
 QNeg(p) == <<0 - p[1], p[2]>>
-QAdd(p, q) == Q(p[1] * q[2] + q[1] * p[2], p[2] * q[2])
-QSub(p, q) == Q(p[1] * q[2] - q[1] * p[2], p[2] * q[2])
+QAdd(p, q) == LET g == Gcd(p[2], q[2]) IN Q(p[1] * (q[2] \div g) + q[1] * (p[2] \div g), (p[2] \div g) * q[2])
+QSub(p, q) == QAdd(p, QNeg(q))
 QMul(p, q) == LET g1 == Gcd(Abs(p[1]), q[2])
                   g2 == Gcd(Abs(q[1]), p[2])
               IN IF p[1] = 0 \/ q[1] = 0 THEN QZero
@@ -106,9 +106,10 @@ VScale(q, v) == <<QMul(q, v[1]), QMul(q, v[2])>>
 \* integer matrix <<m11, m12, m21, m22>> times rational vector
 MApply(m, v) == <<QAdd(QMul(QI(m[1]), v[1]), QMul(QI(m[2]), v[2])), QAdd(QMul(QI(m[3]), v[1]), QMul(QI(m[4]), v[2]))>>
 
-\* ---- surds [q, r] = q * sqrt(r), r squarefree (radicands stay below 65^2 in every case set)
-SqCap == 64
-SqPart(n) == LET ks == {k \in 1..SqCap : k * k <= n /\ n % (k * k) = 0} IN CHOOSE k \in ks : \A j \in ks : j <= k
+\* ---- surds [q, r] = q * sqrt(r), r squarefree (radicands stay below 2049^2 in every case set)
+SqPart(n) == LET cap == IF n < 4096 THEN 64 ELSE 2048
+                 ks == {k \in 1..cap : k * k <= n /\ n % (k * k) = 0}
+             IN CHOOSE k \in ks : \A j \in ks : j <= k
 Surd(q, n) == IF q[1] = 0 \/ n = 0 THEN [q |-> QZero, r |-> 1]
               ELSE LET k == SqPart(n) IN [q |-> QMul(q, QI(k)), r |-> n \div (k * k)]
 SRoot(n) == Surd(QI(1), n)
@@ -117,6 +118,8 @@ SZero == SOfQ(QZero)
 SMulQ(s, q) == Surd(QMul(s.q, q), s.r)
 SIsQ(s) == s.r = 1
 SSq(s) == QMul(QSq(s.q), QI(s.r))                       \* the square, a rational
+SMulRoot(s, n) == Surd(s.q, s.r * n)                    \* s * sqrt(n)
+SDivRoot(s, n) == Surd(QDiv(s.q, QI(n)), s.r * n)       \* s / sqrt(n)
 \* s1 / s2 when that is rational (squarefree radicands: exactly when they are equal), else Irr
 SDivQ(s1, s2) == IF s2.q[1] = 0 THEN Irr ELSE IF s1.q[1] = 0 THEN QZero ELSE IF s1.r = s2.r THEN QDiv(s1.q, s2.q) ELSE Irr
 
@@ -143,16 +146,16 @@ EnsureW(aW, hh) == IF Det(aW.m) < 0 THEN FlipW(aW, hh) ELSE aW
 \* plane position (xi, eta), degrees, of the FITS pixel coordinate px = <<x, y>> (rationals)
 PlaneOf(aW, px) == VScale(aW.u, MApply(aW.m, VSub(px, aW.cr)))
 
-\* a linear map f * k with k a primitive integer matrix and f > 0 given by its square: canonical, so equal maps are equal records
-Lin(k, f2) == LET g == Gcd(Gcd(Abs(k[1]), Abs(k[2])), Gcd(Abs(k[3]), Abs(k[4])))
-              IN IF g = 0 THEN [k |-> k, f2 |-> QZero]
-                 ELSE [k |-> <<k[1] \div g, k[2] \div g, k[3] \div g, k[4] \div g>>, f2 |-> QMul(f2, QI(g * g))]
+\* a linear map f * k with k a primitive integer matrix and f > 0 a surd: canonical, so equal maps are equal records
+Lin(k, f) == LET g == Gcd(Gcd(Abs(k[1]), Abs(k[2])), Gcd(Abs(k[3]), Abs(k[4])))
+             IN IF g = 0 THEN [k |-> k, f |-> SZero]
+                ELSE [k |-> <<k[1] \div g, k[2] \div g, k[3] \div g, k[4] \div g>>, f |-> SMulQ(f, QI(g))]
 \* an affine pixel -> plane map: the reference pixel and the linear part
 Aff(aCr, aLin) == [cr |-> aCr, lin |-> aLin]
-AffOfW(aW) == Aff(aW.cr, Lin(aW.m, QSq(aW.u)))
-\* position of a pixel under an affine map, as (f^2, k . (px - cr)): equal records are equal positions
-PosAff(af, px) == IF af.cr[1] = Irr \/ af.cr[2] = Irr THEN [f2 |-> af.lin.f2, v |-> <<Irr, Irr>>]
-                  ELSE [f2 |-> af.lin.f2, v |-> MApply(af.lin.k, VSub(px, af.cr))]
+AffOfW(aW) == Aff(aW.cr, Lin(aW.m, SOfQ(aW.u)))
+\* position of a pixel under an affine map, as (f, k . (px - cr)): equal records are equal positions
+PosAff(af, px) == IF af.cr[1] = Irr \/ af.cr[2] = Irr THEN [f |-> af.lin.f, v |-> <<Irr, Irr>>]
+                  ELSE [f |-> af.lin.f, v |-> MApply(af.lin.k, VSub(px, af.cr))]
 PosW(aW, px) == PosAff(AffOfW(aW), px)
 
 \* ================================================================================================ the description
@@ -231,7 +234,7 @@ DecodeSky(ds, hh) ==
         y == par * ds.rot[2]
         k == <<(0 - x) * par, (0 - y) * par, y, 0 - x>>
     IN Aff(<<QAdd(ds.offx.q, QHalf), QAdd(QSub(QI(hh), ds.offy.q), QHalf)>>,
-           Lin(k, QDiv(SSq(ds.base), QI(x * x + y * y))))
+           Lin(k, SDivRoot(ds.base, x * x + y * y)))
 \* TangentTile + StudyTiling: the pyramid of 2^levels x 2^levels tiles is a square of p2n pixels, S degrees each; the plane
 \* position of pyramid pixel corner (pu, pv) (pu to the right, pv down) before rotation is
 \*     right = pu * S - base / width_factor + offset_x,   up = base / 2 - pv * S + offset_y
@@ -247,7 +250,7 @@ DecodeTan(ds, ww, hh) ==
         oy == SDivQ(ds.offy, S)
         crx == IF ox = Irr THEN Irr ELSE QAdd(QSub(QSub(Q(p2n, ds.wf), ox), QI(t.x.g0)), QHalf)
         cry == IF oy = Irr THEN Irr ELSE QAdd(QSub(QAdd(Q(p2n, 2), oy), QI(t.y.g0)), QHalf)
-    IN Aff(<<crx, cry>>, Lin(<<0 - x, 0 - y, y, 0 - x>>, QDiv(SSq(S), QI(x * x + y * y))))
+    IN Aff(<<crx, cry>>, Lin(<<0 - x, 0 - y, y, 0 - x>>, SDivRoot(S, x * x + y * y)))
 Decode(ds, ww, hh) == IF ds.proj = "SkyImage" THEN DecodeSky(ds, hh) ELSE DecodeTan(ds, ww, hh)
 
 \* ================================================================================================ AVM
@@ -314,7 +317,7 @@ FlipCase(k) == LET f == FlipW(GivenW(k), k.h) IN [k EXCEPT !.m = f.m, !.cr = f.c
 \* the same AVM applied to an image of its own reference dimension
 AvmAtReference(k) == [k EXCEPT !.w = k.rw, !.h = k.rh]
 \* everything the theorems and the harness need about a case, evaluated once (the LET definitions are evaluated at most once)
-NoAff == Aff(<<Irr, Irr>>, Lin(<<0, 0, 0, 0>>, QZero))
+NoAff == Aff(<<Irr, Irr>>, Lin(<<0, 0, 0, 0>>, SZero))
 Basic(k) ==
     LET ap == Applied(k)
         pr == PreSet(k)
@@ -405,7 +408,7 @@ MisdescribedIffNotExact == out.described => (out.dec.lin = AffOfW(out.app).lin <
 AcceptedWithinFivePercent == out.described => LET m == out.app.m IN ~NonSquare(m) /\ ~Cd1Bad(m) /\ ~Cd2Bad(m) /\ Det(m) # 0
 \* the description of an accepted matrix is always ONE scale (that of the rows of CD2_x), ONE angle, a parity
 OneScaleOneAngle == out.described => /\ ExactForm(out.dec.lin.k)
-                                     /\ QMul(out.dec.lin.f2, QI(RowY(out.dec.lin.k))) = QMul(QSq(out.app.u), QI(RowY(out.app.m)))
+                                     /\ SMulRoot(out.dec.lin.f, RowY(out.dec.lin.k)) = SMulRoot(SOfQ(out.app.u), RowY(out.app.m))
 RefusedUnchanged == ~out.ok => out.set = out.pre /\ out.place = FreshPlace
 
 \* (4) the rotation written is atan2(-CD1_2, -CD2_2) whatever the parity of an untiled image ...
@@ -453,7 +456,7 @@ TargetCorner(k, fx, fy) == <<Q(2 * fx * k.w + 1, 2), Q(2 * (1 - fy) * k.h + 1, 2
 \* (7) default astrometry: one degree per padded square, unrotated, the image centre within half a pixel of the centre
 DefaultIsCentred == cs.kind = "default" =>
                         LET dc == out.dec  t == ST!Tiling(cs.w, cs.h) IN
-                        /\ dc.lin = Lin(<<0 - 1, 0, 0, 0 - 1>>, QSq(Q(1, t.p2)))
+                        /\ dc.lin = Lin(<<0 - 1, 0, 0, 0 - 1>>, SOfQ(Q(1, t.p2)))
                         /\ dc.cr = <<Q(2 * ((cs.w + 1) \div 2) + 1, 2), Q(2 * ((cs.h + 1) \div 2) + 1, 2)>>
                         /\ out.set.cv = <<QZero, QZero>> /\ out.place.cen = <<QZero, QZero>>
 
@@ -484,7 +487,8 @@ ServedFileMatches ==
         LET t == ST!Tiling(cs.w, cs.h) IN
         \A px \in Corners(cs.w, cs.h) :
             PosAff(DecodeSky(out.set, TS), VAdd(px, <<QI(t.x.g0), QI(t.y.g0)>>)) = PosW(out.app, px)
-\* ... which holds exactly for a 256 x 256 image
+\* ... which holds exactly when nothing is padded on the left and nothing at the bottom: a 256 (or 255) x 256 image
+\* (SkyImage offsets count from the left and from the BOTTOM edge of the file; StudyTiling centres, the odd pixel goes right / down)
 ServedFileMatchesIffFullTile ==
-    (out.described /\ cs.pre = "study" /\ ~out.tiled /\ ExactForm(out.app.m)) => (ServedFileMatches <=> (cs.w = TS /\ cs.h = TS))
+    (out.described /\ cs.pre = "study" /\ ~out.tiled /\ out.exact) => (ServedFileMatches <=> (cs.h = TS /\ cs.w >= TS - 1))
 =============================================================================
